@@ -96,6 +96,16 @@ CHECKS = {
          "spec/DNSEngine.tla defines the reference answer over ALL entries of the lists (DNS-applicable rules that match via Rule!Match and Rule!HostLevel, Verdict!DNSClass, hosts entries naming the host split by family, matched flag) and the hashed host table with its name re-check; TLC enumerates every set of up to 3 (quick) / 4 (thorough) entries of a 24-entry pool against 40 requests, with the real djb2 values of the hostnames (two of which genuinely collide), checks HostTableOK and emits the answers; every set is loaded in seeded order/splits into the real DNSEngine and NetworkRules, the class and admissibility of the basic rule, both host groups and the matched flag are compared.",
          "Trusted: TLC, the renderer (cross-checked against the parsed rules). Which of several equal-class rules is reported is not compared.",
          "6/C02"),
+ "C13": ("model_checking",
+         "TLC trace validation of long real query histories against 'one unknown pure function of (lists, query)' (unlogged variable inferred by TLC), fresh-engine twin answers and re-digested old results; exhaustive TLC design model of cache/pool/fault histories",
+         "spec/UrlFilter.tla is the design model of the hidden state (rule cache, pooled request record refilled field by field, faults); TLC checks Pure and PoolRefilled over every history of up to 4 (quick) / 6 (thorough) queries. The binding is Trace_History.tla: a seeded driver runs histories of 200 (quick) / 2000 (thorough) DNS, web, MatchAll and cosmetic queries with alternating client name / IP / tags / record type against long-lived engines over random lists (string and file stores, lazily compiled and invalid regex rules), asks every distinct query on a fresh engine as well, calls DNSRewrites / GetBasicResult / GetCosmeticOption on old results and re-digests old result objects; TLC validates every event in order, inferring the unlogged function F on first observation and rejecting any later or fresh answer that differs, any changed result object and any derived result that is not a function of its result.",
+         "Trusted: TLC; answers are projected to rule texts, classes and flags. A fresh engine on the same lists is the only oracle.",
+         "6/C13"),
+ "C19": ("model_checking",
+         "exhaustive TLC design model of fault points (FaultSubset, StillServed, MemoryUnaffected); TLC trace validation of faulted real histories against a fault-free twin and the linear-scan oracle",
+         "The design model (spec/UrlFilter.tla) is checked over every history with the fault at any point. Trace_Fault.tla validates real histories in order: file-backed random lists (every fifth with a 3000-line slice of the bundled lists), a fault at a random point (RuleStorage.Close, or one list's file handle replaced by a closed descriptor), queries through DNSEngine.MatchRequest and NetworkEngine.MatchAll on the faulted engine and on a fault-free twin, plus the rules that truly match by a linear scan with the rules' own Match. Allowed: no crash; every returned rule truly matches; both engines agree before the fault; afterwards the matching network rules are a subset of the twin's and those already returned before the fault are still returned.",
+         "Trusted: TLC, rule.Match / HostRule.Match as the oracle the property names. 'Still served' is required only for rules the faulted engine had returned before the fault.",
+         "6/C19"),
 }
 
 NOT_YET = "check not built yet in this session (see DESIGN.md section 6 for the planned TLA+ decision procedure)"
